@@ -145,15 +145,22 @@ def check(req):
             member = prefix + a["path"]
             delivered = b(a.get("delivered") or "")
             expect_member = bool(directory) and a.get("ok") and len(delivered) > 0
+            if expect_member and a.get("read_failed") and member not in content:
+                # the narrow fault relaxation: an asset whose read ended with an I/O error may be stored as the prefix that was
+                # delivered, or left out altogether - nothing else may change
+                continue
             if expect_member:
                 if member not in content:
                     if a.get("never_opened"):
                         return fail("asset_member_missing", "asset %r is in the asset table and its file is readable (%d bytes), but the package builder never tried to read it and %s is not in the archive" % (a["url"], len(delivered), member))
                     return fail("asset_member_missing", "asset %r was read (%d bytes) but %s is not in the archive" % (a["url"], len(delivered), member))
-                if content[member] != delivered:
+                if content[member] != delivered and content[member] != b(a.get("delivered_raw") or a.get("delivered") or ""):
                     return fail("asset_member_content_differs", "asset %r: archive holds %d bytes, the file delivered %d" % (a["url"], len(content[member]), len(delivered)))
             elif member in content:
-                return fail("asset_member_unexpected", "asset %r could not be read but %s is in the archive" % (a["url"], member))
+                # a file that was opened and delivered nothing (empty, or only a byte-order mark) may be left out or stored as an empty member;
+                # anything else under that name is made up
+                if not (bool(directory) and a.get("ok") and content[member] in (b"", b(a.get("delivered_raw") or ""))):
+                    return fail("asset_member_unexpected", "asset %r could not be read but %s is in the archive (%d bytes)" % (a["url"], member, len(content[member])))
         known = {prefix + a["path"] for a in assets}
         for n in names:
             if n.startswith(prefix) and n != prefix and n not in known:
